@@ -15,7 +15,7 @@ Native replay: second open while a handle lives → Locked and directory untouch
 """
 import z3, os
 from ..core import ret_is_err, ret_is_ok, obj_name
-from ..symex import Obj, EnumV, Ref, Cell, deref, bv
+from ..symex import Obj, EnumV, Ref, Cell, deref, bv, Ev
 from ..contract import SliceView
 from . import common as C
 
@@ -305,6 +305,124 @@ def check_drop(ctx):
     return ob
 
 
+def check_drop_releases_blocked(ctx):
+    """A worker thread can be blocked in a send on the full worker queue (it is consumer and producer of that bounded queue: a memtable rotation ends with a blocking
+    `send(Flush)`).  The wait loop of DatabaseInner::drop is then the only party left that can make room *and admit the waiting sender*.  Contract F7 (flume 0.12, read from its
+    source): `try_send` fails iff the queue is full; `Receiver::drain` first admits waiting senders only while the queue has room and then empties the queue - on a full queue it
+    admits none; `try_recv`/`recv` admit a waiting sender (capacity + 1) before popping.  Obligation: starting from a full queue with 1..2 blocked senders (capacity 2, a stated
+    bound), after capacity + 3 iterations of the wait loop no sender is left waiting."""
+    pat = r'^db::<impl>::drop$'
+    ob = ctx.ob('drop/releases-blocked-senders', 'DatabaseInner::drop: a worker blocked sending into the full worker queue is admitted by the wait loop (queue model F7, capacity 2, 1..2 blocked senders): '
+                'otherwise the worker never returns to its loop, never sees the stop signal and the drop spins forever', [pat])
+    CAP = 2
+    from ..contract import fork_cond
+
+    def chan(st):
+        return st.globals['__chan']
+
+    def ov_try_send(ex, st, call):
+        c = chan(st)
+        out = []
+        for s2, yes, _k in fork_cond(ex, st, z3.ULT(c.data['qlen'], bv(CAP))):
+            c2 = chan(s2)
+            if yes:
+                c2.data['qlen'] = c2.data['qlen'] + 1
+                s2.emit(Ev('CH_TRY_SEND', res='ok', site=call.site))
+                out.append((s2, ex.mk_enum(call.dst_ty, 'Ok', [ex.unit()])))
+            else:
+                s2.emit(Ev('CH_TRY_SEND', res='full', site=call.site))
+                out.append((s2, ex.mk_enum(call.dst_ty, 'Err', [ex.fresh(s2, 'flume::TrySendError<WorkerMessage>', 'full')])))
+        return out
+
+    def ov_drain(ex, st, call):
+        c = chan(st)
+        room = bv(CAP) - c.data['qlen']
+        adm = z3.If(z3.ULE(c.data['pending'], room), c.data['pending'], room)
+        c.data['pending'] = z3.simplify(c.data['pending'] - adm); c.data['qlen'] = bv(0)
+        st.emit(Ev('CH_DRAIN', args={'admitted': adm}, site=call.site))
+        return Obj(call.dst_ty, 'drain', 'opaque')
+
+    def ov_try_recv(ex, st, call):
+        c = chan(st)
+        out = []
+        for s2, yes, _k in fork_cond(ex, st, z3.Or(c.data['qlen'] != 0, c.data['pending'] != 0)):
+            c2 = chan(s2)
+            if yes:
+                room = bv(CAP + 1) - c2.data['qlen']
+                adm = z3.If(z3.ULE(c2.data['pending'], room), c2.data['pending'], room)
+                c2.data['qlen'] = z3.simplify(c2.data['qlen'] + adm - 1); c2.data['pending'] = z3.simplify(c2.data['pending'] - adm)
+                s2.emit(Ev('CH_RECV', args={'admitted': adm}, site=call.site))
+                out.append((s2, ex.mk_enum(call.dst_ty, 'Ok', [ex.fresh(s2, 'WorkerMessage', 'msg')])))
+            else:
+                out.append((s2, ex.mk_enum(call.dst_ty, 'Err', [ex.fresh(s2, 'flume::TryRecvError', 'empty')])))
+        return out
+
+    def ov_blocking(ex, st, call):
+        st.emit(Ev('CH_BLOCKING', args={'callee': call.c0}, site=call.site))
+        return NotImplemented
+
+    def setup(ex, st, fr):
+        c = Obj('flume::Chan', 'worker_queue', 'opaque')
+        p0 = z3.BitVec('blocked_senders', 64)
+        st.pc += [z3.UGE(p0, bv(1)), z3.ULE(p0, bv(2))]
+        c.data['qlen'] = bv(CAP); c.data['pending'] = p0
+        st.globals['__chan'] = c
+    fn = ctx.prog.find(pat)
+    ex = ctx.executor(loop_bound=CAP + 5, no_inline=[r'FlushManager::clear$', r'JournalManager::clear$', r'StopSignal::send$'], timeout_s=120,
+                      overrides=[(r'flume::Sender::try_send$|^Sender::try_send$', ov_try_send), (r'flume::Receiver::drain$|^Receiver::drain$', ov_drain),
+                                 (r'flume::Receiver::try_recv$|^Receiver::try_recv$', ov_try_recv)])
+    paths = ex.run(fn, setup=setup)
+    ctx.functions_encoded[fn.key] = ctx.prog.hashes.get(fn.name, '')
+    ctx.paths_total += len(paths); ctx.solver_s += ex.stats['solver_s']; ctx.queries += ex.stats['solver_calls']
+    bad = []
+    if [p for p in paths if p.status in ('error', 'timeout')]:
+        q = [p for p in paths if p.status in ('error', 'timeout')][0]
+        ob.status = 'undecided'; ob.detail = f'executor: {q.status} {q.notes[-1:]}'; return ob
+    for p in paths:
+        if p.status != 'loop_bound':
+            continue      # the loop ended because the counter read 0: the workers are gone
+        loads = [e for e in p.events if e.kind == 'ATOMIC_LOAD' and 'active_thread_counter' in obj_name(e)]
+        if len(loads) < CAP + 3:
+            continue      # cut inside an inner loop
+        ob.reach += 1
+        c = p.st.globals['__chan']
+        r, m = ctx.sat(p.pc + [c.data['pending'] != 0], ob)
+        if r != z3.unsat:
+            trace = ' · '.join((e.kind + (':' + str(e.res) if e.kind == 'CH_TRY_SEND' else '')) for e in p.events if e.kind.startswith('CH_'))
+            bad.append((p, f'after {len(loads)} iterations of the wait loop a sender that was blocked on the full worker queue is still waiting (queue operations: {trace}): '
+                           'draining a full queue admits no waiting sender, so the blocked worker never finishes its send, never reaches its stop check, and the drop never ends'))
+            break
+    if ob.reach == 0:
+        ob.status = 'undecided'; ob.detail = 'vacuous'
+    elif not bad:
+        ob.status = 'discharged'; ob.sample = {'paths': ob.reach, 'capacity': CAP}
+    else:
+        ctx.candidate(ob, 'drop/blocked-worker-never-released', f'{ob.id}: {bad[0][1]}', confirm=lambda: native_drop_with_blocked_worker(ctx))
+    return ob
+
+
+def native_drop_with_blocked_worker(ctx):
+    """one worker thread; it is parked at the start of a memtable rotation while 1100 further writes each request a rotation (the bounded worker queue, capacity 1000, fills up);
+    released, the worker rotates and blocks in its `send(Flush)` on the full queue.  Then the last handle is dropped on another thread: the drop must finish."""
+    big = '61' * 200
+    L = ['dir $DIR/db', 'workers_pausable 1', 'open workers=1', 'ks a memtable=64', 'arm_pause journal.get_writer', f'insert a 6b31 {big}', 'wait_parked journal.get_writer 4000']
+    L += [f'insert a 6b{i % 250:02x} 62' for i in range(1100)]
+    L += ['release journal.get_writer', 'sleep 500', 'spawn_close D', 'join_timeout D 10000', 'threads']
+    spath, out = ctx.run_scenario('\n'.join(L) + '\n', tag='drop-blocked-worker')
+    rs = [(c, r) for _i, c, r in out]
+    parked = [r for c, r in rs if c == 'wait_parked']
+    if not parked or not parked[0].startswith('ok'):
+        return False, spath, f'the worker did not reach the rotation ({parked})'
+    jt = [r for c, r in rs if c == 'join_timeout']
+    th = [r for c, r in rs if c == 'threads']
+    if jt and jt[0] == 'pending':
+        return True, spath, (f'a worker blocked in its flush request on the full worker queue is never released: dropping the last handle did not finish within 10 s ({th[0] if th else "?"} still running); '
+                             'background threads never stop and the directory stays locked')
+    if any(c == 'CRASH' for c, _r in rs):
+        return False, spath, 'replay ended abnormally: ' + rs[-1][1][-200:]
+    return False, spath, f'held natively (drop finished: {jt}, {th})'
+
+
 def native_drop_with_busy_worker(ctx):
     """the last handle is dropped while a worker thread is in the middle of a memtable rotation (parked at the journal lock by a hook); the worker then
     finishes, queues its flush task and exits.  Afterwards the directory must be free: reopening in the same process succeeds and the data is there."""
@@ -420,6 +538,8 @@ def run(ctx):
     ctx.assumptions += [
         'F2: File::try_lock excludes other handles/processes (OS behaviour, assumed); joined/closed worker threads have stopped',
         'marker bytes 0..6 symbolic; longer markers behave like their 4-byte prefix (get(0..3)/get(3) only)',
+        'F7 (flume 0.12 bounded channel, from its source): try_send fails iff the queue is full; Receiver::drain admits waiting senders only while the queue has room, then empties it; '
+        'try_recv/recv admit a waiting sender before popping. Queue capacity 2 and 1..2 blocked senders in the model (real capacity 1000)',
     ]
     for n in (0, 2, 3, 4, 6):
         check_parse(ctx, n)
@@ -429,6 +549,7 @@ def run(ctx):
     check_lock_shared(ctx)
     check_lock_acquire(ctx)
     check_drop(ctx)
+    check_drop_releases_blocked(ctx)
     if ctx.tier == 'thorough':
         check_kani(ctx)
     for o in ctx.obligations:
@@ -437,7 +558,8 @@ def run(ctx):
 
 
 MUTANTS = [
-    {'name': 'revert: drop floods the worker queue with blocking sends', 'edits': [('src/db.rs', "            if self\n                .worker_pool\n                .sender\n                .try_send(WorkerMessage::Close)\n                .is_err()\n            {\n                let _ = self.worker_pool.rx.drain().count();\n            }", "            let _ = self.worker_pool.sender.send(WorkerMessage::Close);")]},
+    {'name': 'revert: drop floods the worker queue with blocking sends', 'edits': [('src/db.rs', "            if self\n                .worker_pool\n                .sender\n                .try_send(WorkerMessage::Close)\n                .is_err()\n            {\n                while self.worker_pool.rx.try_recv().is_ok() {}\n            }", "            let _ = self.worker_pool.sender.send(WorkerMessage::Close);")]},
+    {'name': 'revert: drop makes room with drain (admits no blocked sender)', 'edits': [('src/db.rs', "                while self.worker_pool.rx.try_recv().is_ok() {}", "                let _ = self.worker_pool.rx.drain().count();")]},
     {'name': 'flush queue cleared before the workers stop only', 'edits': [('src/db.rs', "        let _ = self.worker_pool.rx.drain().count();\n\n        while self", "        let _ = self.worker_pool.rx.drain().count();\n        self.supervisor.flush_manager.clear();\n\n        while self"), ('src/db.rs', "        // IMPORTANT: Break cyclic Arcs\n        self.supervisor.flush_manager.clear();", "        // IMPORTANT: Break cyclic Arcs")]},
     {'name': 'check_version accepts V2', 'edits': [('src/db.rs', "if version != FormatVersion::V3 {", "if version != FormatVersion::V3 && version != FormatVersion::V2 {")]},
     {'name': 'lock acquired after journal recovery', 'edits': [('src/db.rs', """        let lock_file = LockedFileGuard::try_acquire(&config.path.join(LOCK_FILE))?;
